@@ -20,7 +20,7 @@ Inductive fact := FEq (v : operand) (op : string) (args : list operand) | FCell 
 
 Definition operand_eqb (a b : operand) : bool :=
   match a, b with
-  | OLit x, OLit y => x mod W =? y mod W
+  | OLit x, OLit y => x =? y
   | OVar x, OVar y => N.eqb x y
   | OLab x, OLab y => N.eqb x y
   | _, _ => false
@@ -48,9 +48,6 @@ Definition fact_ops (g : fact) : list operand :=
   match g with FEq v _ a => v :: a | FCell _ p v => [p; v] | FNz c => [c] end.
 Definition mentions (g : fact) (x : N) : bool := existsb (is_var x) (fact_ops g).
 
-(* control instructions are executed by `step` itself and leave the store alone *)
-Definition CTL_OPS : list string := ["jmp"; "jnz"; "djmp"; "assert"; "assert_unreachable"].
-Definition wshape (op : string) : shape := if is_in op CTL_OPS then sh_pure else shape_of op.
 Definition null {A} (l : list A) : bool := match l with [] => true | _ => false end.
 (* instructions whose only effect is to define their output as a function of the arguments and the read footprint *)
 Definition ro_ok (op : string) : bool :=
@@ -72,8 +69,16 @@ Fixpoint find_def (F : list fact) (x : N) : option (string * list operand) :=
 Definition offset_by (asz : Z -> Z) (r : option Z * option Z) (d : Z) : option Z * option Z :=
   match r with
   | (None, Some o) => if (0 <=? o + d) && (o + d <? W) then (None, Some (o + d)) else (None, None)
-  | (Some id, Some o) => if (0 <=? o + d) && (o + d <=? asz id) then (Some id, Some (o + d)) else (None, None)
+  | (Some id, Some o) => if (0 <=? o + d) && (o + d <=? asz id) then (Some id, Some (o + d)) else (Some id, None)
+  | (Some id, None) => (Some id, None)
   | _ => (None, None)
+  end.
+(* pointer plus a non-literal: same allocation, unknown offset (only useful to the liberal variant) *)
+Definition in_alloca (r1 r2 : option Z * option Z) : option Z * option Z :=
+  match fst r1, fst r2 with
+  | Some id, None => (Some id, None)
+  | None, Some id => (Some id, None)
+  | _, _ => (None, None)
   end.
 
 Fixpoint resolve (fuel : nat) (F : list fact) (asz : Z -> Z) (p : operand) : option Z * option Z :=
@@ -96,6 +101,7 @@ Fixpoint resolve (fuel : nat) (F : list fact) (asz : Z -> Z) (p : operand) : opt
           match a with
           | [OLit k; q] => offset_by asz (resolve n F asz q) (k mod W)
           | [q; OLit k] => offset_by asz (resolve n F asz q) (k mod W)
+          | [q1; q2] => in_alloca (resolve n F asz q1) (resolve n F asz q2)
           | _ => (None, None)
           end
         else if op =s "sub" then
